@@ -822,10 +822,9 @@ class ConstructedPayloadDecoderBase(AbstractConstructedPayloadDecoder):
 
                                 asn1Object.setComponentByPosition(idx, component)
 
-            else:
-                inconsistency = asn1Object.isInconsistent
-                if inconsistency:
-                    raise inconsistency
+            inconsistency = asn1Object.isInconsistent
+            if inconsistency:
+                raise inconsistency
 
         else:
             componentType = asn1Spec.componentType
@@ -1056,10 +1055,9 @@ class ConstructedPayloadDecoderBase(AbstractConstructedPayloadDecoder):
 
                                     asn1Object.setComponentByPosition(idx, component)
 
-                else:
-                    inconsistency = asn1Object.isInconsistent
-                    if inconsistency:
-                        raise inconsistency
+            inconsistency = asn1Object.isInconsistent
+            if inconsistency:
+                raise inconsistency
 
         else:
             componentType = asn1Spec.componentType
